@@ -11,8 +11,8 @@ USES_FACTS = True
 DRIVER = "shootmodel_det"
 
 MANIFEST = dict(
-    text="Lean 4 theorems over a model of the Generate loop with the long-lived generator state made explicit (new, map; enum/rest keep none) and of MergeSources on parsed files: reset (per-type output = fresh-generator output; parameterised by which fields the code carries, partial + witnesses for today's four leaks), combined run = one process per type, permutation, merged file = declarations + own doc comments + first-occurrence imports under the first header; every Generator field of the CURRENT source is classified (regenerated table). Tied to the code by running the rebuilt shoot on generated multi-type packages (new/map/enum/rest) in five invocation styles and comparing the files at AST level.",
-    note="The theorem C08_proposed_repair_perm is about the PROPOSED repair notes/proposed/deps-first-and-shadow-aio.patch (not applied; codeRepair = noRepair), not about the code at HEAD. Lean kernel + standard axioms; model tied by the correspondence run (rebuilt shoot, harness/cmd/declcmp) and by Gen/Facts.lean (genStateFields, genStateWrites). go/parser, go/printer, goimports are externals.",
+    text="Lean 4 theorems over a model of the Generate loop with the long-lived generator state made explicit (new, map; enum/rest keep none) and of MergeSources on parsed files: reset (per-type output = fresh-generator output; parameterised by which fields the code carries, partial + witnesses for today's four leaks), combined run = one process per type, permutation, merged file = declarations + own doc comments + first-occurrence imports under the first header; every Generator field of the CURRENT source is classified (regenerated table), and the `-file=` value is looked at only where types are listed and the output is named, never inside a per-type step (C08_file_flag_sites, regenerated table). Tied to the code by running the rebuilt shoot on generated multi-type packages (new/map/enum/rest) in seven invocation styles (list, one process per type, permuted list, -file=, -file= -sep, -type=*, from the parent directory) and comparing the files at AST level.",
+    note="The theorem C08_proposed_repair_perm is about the PROPOSED repair notes/proposed/deps-first-and-shadow-aio.patch (not applied; codeRepair = noRepair), not about the code at HEAD. Lean kernel + standard axioms; model tied by the correspondence run (rebuilt shoot, harness/cmd/declcmp) and by Gen/Facts.lean (genStateFields, genStateWrites, mergeImportKey, fileFlagSites). go/parser, go/printer, goimports are externals.",
     technique="Lean 4 proof (state machine fold, list induction) + differential model/implementation correspondence",
     design="5/C08")
 
@@ -76,6 +76,9 @@ def make_packages(ctx):
         ("map", {"n": 2, "p_new": 0.5}),
         ("maprich", None), ("maprich", None),
         ("enum", None), ("rest", {"headers": None}), ("rest", None),
+        ("new", {"n": 4, "getset": True, "json": True, "shared_embed": True, "deps_first": True, "opt": False, "generic": 0.0}),   # shared embedded shoot type
+        ("enum", {"multifile": True}), ("enum", {"multifile": True, "empty": True}),                 # constants in another file than the type
+        ("rest", {"headers": True, "dupcase": True}),                                                 # header names that differ only in case
     ]
     pks += detgen.hand_new_pkgs() + detgen.hand_map_pkgs(rng)
     for cmd, force in shaped:
@@ -222,6 +225,14 @@ def build_cases(ctx, pks, res):
             if rs["g"]["ok"]:
                 gd = rs["g"]["desc"].get(detgen.aio_file(pk["gofile"], pk["cmd"]))
                 im["dir-eq"] = "true" if detgen.canon(gd) == detgen.canon(aio) else "false"
+            # -file=F (-sep) against ONE PROCESS PER TYPE (-type=T): where the per-type output is a function of the type alone
+            # (map / enum / rest: C08_run_pure; new without -getset: nothing is read back) the two must agree type by type, and
+            # generate for the same types - `-file=` only decides which types are listed (C08_file_flag_sites)
+            if rs["b"]["ok"] and (pk["cmd"] != "new" or not pk.get("getset")):
+                fe = {t: rs["e"]["desc"].get(detgen.out_file(pk["gofile"], pk["cmd"], t)) for t in pk["types"]}
+                fb = {t: rs["b"]["desc"].get(detgen.out_file(pk["gofile"], pk["cmd"], t)) for t in pk["types"]}
+                im["sep-eq"] = "true" if all((fe[t] is None) == (fb[t] is None) and (fe[t] is None or detgen.canon(fe[t]) == detgen.canon(fb[t]))
+                                             for t in pk["types"]) else "false"
             add(pk["id"] + "m", "merge", [detgen.merge_file_sexp(f) for f in files], im, "d", pk["id"] + "m")
         else:
             res.hist("skipped", "all-in-one-run-fails")
@@ -245,6 +256,8 @@ def post_model(cases, impl, model):
             if c["id"].endswith("m"):
                 if "star-eq" in impl[c["id"]]:
                     d["star-eq"] = "true"      # impl-vs-impl leg (`-type=*` against `-file=`): no model, the property says equal
+                if "sep-eq" in impl[c["id"]]:
+                    d["sep-eq"] = "true"       # impl-vs-impl leg (-file= -sep against one process per type)
                 if "dir-eq" in impl[c["id"]]:
                     d["dir-eq"] = "true"       # impl-vs-impl leg (run from the parent directory with [dir])
             else:
@@ -265,6 +278,10 @@ def run(ctx, obl):
     cases, impl = build_cases(ctx, pks, res)
     model = core.model_run(ctx, [c["sexp"] for c in cases])
     post_model(cases, impl, model)
+    for c in cases:
+        for k in ("sep-eq", "star-eq", "dir-eq"):
+            if k in impl.get(c["id"], {}):
+                res.hist("impl-vs-impl-legs", "%s/%s" % (k, c["pk"]["cmd"]))
 
     def nontrivial(c, m, im):
         if c["id"].endswith("m"):
@@ -298,7 +315,10 @@ def run(ctx, obl):
     res.rule = ("seeded multi-type packages: `new` (2-8 struct trees from the C02 grammar: marks, defaults, generics, private embeds, cross embeds between listed "
                 "types, type-level getter/setter switch; flags -getset/-json/-opt), `map` (2-5 type pairs, plain or shoot-new on either side, with / without "
                 "usable constructor), `enum` and `rest` (2-5 types). Each package is generated in five directories: `-type=A,B,..`, one process per type, a permuted "
-                "list, `-file=`, `-file= -sep` (+ `-type=*` when a go:generate line is present). Per package: combined vs per-process (per type: constructor "
+                "list, `-file=`, `-file= -sep`, `-file=` run from the parent directory with [dir] (+ `-type=*` when a go:generate line is present). Shapes present in every run: a shoot "
+                "type shared by several embedders with named types (time.Time, a local struct, pointers to it) in its accessor signatures; enum types whose constants are "
+                "partly or wholly declared in another file than the type; rest headers directives naming a header in spellings that differ only in case. Per package: "
+                "`-file= -sep` against one process per type, type by type (map / enum / rest / new without -getset: the per-type output is a function of the type alone),  combined vs per-process (per type: constructor "
                 "parameters, accessor interfaces, JSON getter/setter lists, map plans, and AST equality of the files), the per-process run against the model, the "
                 "permuted run against the original, and the real merged file against the model's merge of the real per-type files (header, package, import set, "
                 "every declaration with its doc/inner comments). non-trivial = at least two types with at least two non-empty observables, resp. >= 4 merged declarations")
